@@ -771,9 +771,56 @@ func TestC16(t *testing.T) {
 	Col.Property = "C16"
 	ReplayRegress(t, "C16")
 	RunProps(t, rpC16(MyTypes()))
+	t.Run("application-registered-keys", c16LateKeys)
 }
 
 func init() { RapidProps["C16"] = func() []RProp { return rpC16(TypeNames) } }
+
+// c16LateKeys: a message whose discriminator is a key the APPLICATION registered (through the table's exported
+// Registry...Factory) - a value the library has no constant for. Nothing reachable from the decoded message may
+// change when the source buffer is overwritten and reused. Runs last (the registration cannot be undone).
+func c16LateKeys(t *testing.T) {
+	for ti, tb := range TableList {
+		if !MyShare(ti) {
+			continue
+		}
+		reg := lateRegister[tb.QName]
+		if reg == nil {
+			continue
+		}
+		holder := holderOf(tb)
+		key, wire, ok := lateWireImage(tb, reg)
+		if !ok {
+			Col.BrokenHarness("cannot locate the part of " + holder)
+			continue
+		}
+		Col.Case(Hash64([]byte(tb.QName), []byte("late16")), true, "decode-side:key-registered-by-the-application")
+		for _, off := range []int{0, 3} {
+			in := append(make([]byte, 0, len(wire)+off+8), bytes.Repeat([]byte{'#'}, off)...)
+			in = append(in, wire...)
+			buf := bytes.NewBuffer(in)
+			buf.Next(off)
+			obj := regByName[holder].New()
+			err, pan, _ := safely(func() error { return DecodeAny(obj, buf) })
+			if err != nil || pan != nil {
+				continue // C12's business
+			}
+			before := DeepFingerprint(obj)
+			full := in[:cap(in)]
+			for i := range full {
+				full[i] = 0xA7 ^ byte(i*3)
+			}
+			buf.Reset()
+			buf.WriteString("another message arrives in the same receive buffer")
+			if after := DeepFingerprint(obj); after != before {
+				f := failf("C16/"+holder+"/decode-side", "message carrying the application-registered key %q (table %s) changed when its source buffer was overwritten and reused: %+v", key, tb.Name, obj)
+				Col.Violation("C16", "c16late", "late/"+tb.QName, f.Signature, f.Msg, "enumeration", map[string]any{"table": tb.QName, "key": key, "wire": hexClip(wire)})
+				t.Errorf("%s: %s", f.Signature, f.Msg)
+				break
+			}
+		}
+	}
+}
 
 func rpC16(types []string) (out []RProp) {
 	for _, tn := range types {
